@@ -205,7 +205,7 @@ func (x *wrWorld) round(r *wrRound) {
 
 func c17Holders() {
 	x := &wrWorld{w: new(bigbuff.Worker), gate: make(chan struct{}), unit: time.Microsecond}
-	nTasks := simrt.DrawRange(1, 5)
+	nTasks := simrt.DrawRange(1, 5+3*(simrt.Scale()-1))
 	gateProb := simrt.Draw(3)
 	budget := 10
 	tasks := make([][]*wrRound, nTasks)
